@@ -260,9 +260,19 @@ func (e *Engine) VerifyFunc(fn *ssa.Function, blk *Block, props []string) (err e
 	// the substrings are kept (e.g. the conformance preconditions of one
 	// callee); the others are neither proved nor reported, which the evidence
 	// lists as an assumption ("on executions that do not fail earlier").
-	if blk != nil && len(blk.Of("focus")) > 0 {
-		var pats []string
+	var focusCls []*Clause
+	if blk != nil {
+		// "focus [Cxx] ...": applies only while property Cxx is being checked;
+		// unlabelled focus clauses always apply
 		for _, cl := range blk.Of("focus") {
+			if cl.Label == "" || cl.Label == e.CheckProp {
+				focusCls = append(focusCls, cl)
+			}
+		}
+	}
+	if len(focusCls) > 0 {
+		var pats []string
+		for _, cl := range focusCls {
 			for _, it := range splitTop(cl.Text, ',') {
 				if it = trim(it); it != "" {
 					pats = append(pats, it)
